@@ -128,7 +128,9 @@ func (w *World) GenTx(r *gen.R) TxDesc {
 		amt := w.MinStake + int64(r.Intn(5))*1500000
 		var del map[string]uint32
 		if r.Chance(1, 3) {
-			del = map[string]uint32{w.Accts[0].Addr.String(): uint32(1 + r.Intn(50)), w.Fresh[0].Addr.String(): uint32(1 + r.Intn(40))}
+			// one entry only: MsgProtoStake marshals the map in Go map order, so a 2-entry map would
+			// make the tx bytes differ between processes that regenerate the same history
+			del = map[string]uint32{w.Fresh[0].Addr.String(): uint32(1 + r.Intn(40))}
 		}
 		return sign(k, MsgNodeStake(k, amt, []string{ChainHash}, "https://y.com:443", k.Addr, del), "nodeedit", fmt.Sprintf("nodeedit %s %d", k.Addr, amt))
 	case 6:
